@@ -18,7 +18,7 @@ META = {
     "bounds": {"quick": "n<=2 train, f<=2 fantasy, m<=2 test; patterns: plain, fantasy-batch with shared inputs (2 x f), model batch 2; "
                         "Gaussian and fixed-noise (call-time noise) likelihoods; fast_pred_var x detach_test_caches; depth 2",
                "thorough": "n<=3, f<=2, m<=2, all four settings combinations for every pattern"},
-    "outside": ["IndependentModelList fantasies beyond two members with (n,f,m) = (2,1,1),(1,2,1)", "per-fantasy-batch inputs (f x b with own inputs)", "multitask fantasies beyond (n,f,m,t) = (2,1,1,2) with a stub multitask kernel", "WISKI / interpolated fantasy strategy (C09)",
+    "outside": ["IndependentModelList fantasies beyond two members with (n,f,m) = (2,1,1),(1,2,1)", "per-fantasy-batch inputs (f x b with own inputs)", "multitask fantasies beyond (n,f,m,t) = (2,1,1,2) with a stub multitask kernel", "WISKI / interpolated fantasy strategy beyond the linear-in-targets check at concrete hyper-parameters (wiski_fantasy)",
                 "CG / Lanczos paths", "rounding"],
     "assumptions": ["reals for floats", "Cholesky succeeds without jitter",
                     "linear_operator.utils.pinverse.stable_pinverse (Householder QR) is replaced by its contract A^-1 for the square "
@@ -244,6 +244,12 @@ def model_list_fantasy(S, lik, cfg):
                 S.check_concrete(tuple(d["model"].train_targets.shape) == (d["n"],), "member %d: source targets untouched" % k)
 
 
+def wiski_fantasy(S, fpv, depth):
+    """KISS-GP (WISKI) fantasy strategy: see C09.wiski"""
+    from .C09 import wiski
+    wiski(S, fpv, depth=depth)
+
+
 def multitask_fantasy(S, n, f, m, t, cfg, fbatch):
     """multitask exact GP (arbitrary joint covariance over (point, task) pairs, task + global noise): the fantasy model's
        prediction = conditional on train + fantasy entries; source untouched"""
@@ -317,6 +323,8 @@ def scenarios(tier, seed):
         add(n=1, f=1, m=1, lik="fixed_learn", cfg=cfgs[3], pattern="plain", depth=2)
         for lik_ in ("gaussian", "fixed"):
             out.append({"sid": "model_list_fantasy:lik=%s,cfg=%s" % (lik_, cfg_id(cfgs[0])), "fn": "model_list_fantasy", "params": {"lik": lik_, "cfg": cfgs[0]}})
+        out.append({"sid": "wiski_fantasy:fpv=False,depth=1", "fn": "wiski_fantasy", "params": {"fpv": False, "depth": 1}})
+        out.append({"sid": "wiski_fantasy:fpv=True,depth=2", "fn": "wiski_fantasy", "params": {"fpv": True, "depth": 2}})
         out.append({"sid": "multitask_fantasy:n=1,f=2,m=1,t=2,fbatch=0", "fn": "multitask_fantasy", "params": {"n": 1, "f": 2, "m": 1, "t": 2, "cfg": cfgs[0], "fbatch": 0}})
         out.append({"sid": "multitask_fantasy:n=1,f=1,m=1,t=2,fbatch=2,fpv", "fn": "multitask_fantasy", "params": {"n": 1, "f": 1, "m": 1, "t": 2, "cfg": cfgs[2], "fbatch": 2}})
     else:
@@ -332,5 +340,8 @@ def scenarios(tier, seed):
             for fb in (0, 2):
                 out.append({"sid": "multitask_fantasy:n=1,f=1,m=1,t=2,fbatch=%d,cfg=%s" % (fb, cfg_id(cfg)), "fn": "multitask_fantasy",
                             "params": {"n": 1, "f": 1, "m": 1, "t": 2, "cfg": cfg, "fbatch": fb}})
+        for fpv_ in (False, True):
+            for dp in (1, 2):
+                out.append({"sid": "wiski_fantasy:fpv=%s,depth=%d" % (fpv_, dp), "fn": "wiski_fantasy", "params": {"fpv": fpv_, "depth": dp}})
         out.append({"sid": "multitask_fantasy:n=2,f=1,m=1,t=2,fbatch=0", "fn": "multitask_fantasy", "params": {"n": 2, "f": 1, "m": 1, "t": 2, "cfg": cfgs[0], "fbatch": 0}})
     return out
